@@ -1,6 +1,6 @@
 """Shared harness library: generators of component ASTs, printers to .comp text with
 randomised spelling, the harness's own reader of .pil files, and spec-level denotations."""
-import random, re
+import os, random, re
 
 CODES = "ATCGRYWSMKBVDHN"
 
@@ -1098,6 +1098,37 @@ def add_decoys(gen, rng):
                          ["struct", 1, "Sq", ["Tq"], False, ["ext", [[7, "."]]]]]}
         gen.put({"kind": "comp", "name": name, "params": [], "prog": prog, "nin": 1, "dir": tgt,
                  "ports_fn": (lambda a: [("q", False, 7), ("q", False, 7)])})
+    # decoys in directories that no lookup of that name ever probes (ancestors, siblings, unrelated library
+    # directories): an implementation that searches more directories than the importing one and the include list finds them
+    def norm(path): return os.path.normpath(path)
+    sys_items = [it for it in gen.items.values() if it["kind"] == "sys"]
+    alldirs = set(incs)
+    for (dd, nm) in gen.items:
+        parts = dd.split("/") if dd else []
+        for k in range(len(parts) + 1): alldirs.add("/".join(parts[:k]))
+    for (d, name), item in list(gen.items.items()):
+        if rng.random() > 0.5: continue
+        probes = set()
+        for S in sys_items:
+            for imp in (S["stmts"][0][1] if S["stmts"] and S["stmts"][0][0] == "import" else []):
+                pth = imp[0]
+                if pth.split("/")[-1] != name: continue
+                for base in [S["dir"]] + incs:
+                    probes.add(norm((base + "/" if base else "") + pth))
+        cands = [t for t in sorted(alldirs) if t != d and norm((t + "/" if t else "") + name) not in probes
+                 and not any(((t + "/" if t else "") + name + e) in gen.files for e in (".comp", ".sys"))]
+        if not cands: continue
+        t = rng.choice(cands)
+        ext = rng.choice([".comp", ".sys"])
+        path = (t + "/" if t else "") + name + ext
+        if ext == ".sys":
+            gen.files[path] = "declare system %s: x -> y\n" % name
+            gen.entries.append([path, True, [], [[["x", False]], [["y", False]], []]])
+        else:
+            gen.files[path] = 'declare component %s: q -> q\nsequence q = "7N"\nstrand Tq = q\nstructure Sq = Tq : 7.\n' % name
+            gen.entries.append([path, False, [], [sexp_nums([name, [["q", False, None]], [["q", False, None]]]),
+                                                  sexp_nums([["seq", "q", [["nuc", [[7, "N"]]]], None], ["strand", False, "Tq", [["ref", "q", False]], None],
+                                                             ["struct", 1, "Sq", ["Tq"], False, ["ext", [[7, "."]]]]])]])
     # cross-kind decoys: a same-named file of the OTHER kind in a later search directory must not win either
     # (raw files: they are never read on a correct lookup, so they are not items of the generator)
     sysdirs = {dd for (dd, nm), it in gen.items.items() if it["kind"] == "sys"}     # an importer searches its own directory first
